@@ -7,7 +7,8 @@
    well-formed graph, that program computes the reference semantics — hence any two renderings
    agree on every input, in ordinary and in partial mode. *)
 From Coq Require Import List NArith.
-From LogosV Require Import Engine.Model Engine.Cert Engine.ExecOpt Engine.CertProofs Engine.OptProofs.
+From LogosV Require Import Engine.Model Engine.Cert Engine.ExecOpt Engine.Prog Engine.CertProofs Engine.OptProofs Engine.ProgProofs.
+From Coq Require Import FMapPositive.
 Local Open Scope N_scope.
 
 Theorem C06_opt_is_ref : forall U g p start (rest : list byte),
@@ -21,4 +22,30 @@ Theorem C06_generators_agree : forall U1 U2 g p start (rest : list byte),
 Proof.
   intros U1 U2 g p start rest Hwf Hw.
   rewrite (attempt_opt_ref U1 g p start rest Hwf Hw). symmetry. exact (attempt_opt_ref U2 g p start rest Hwf Hw).
+Qed.
+
+(* The programs actually emitted.  [p] is the program parsed by the translator from the token text that
+   either generator emitted for a definition, [g] the graph it was generated from.  When the checker
+   accepts the pair, running the emitted program — fast loop over the look-up table bits, the setup
+   statements, the parsed if-chain conditions or jump table, the end-of-input block — gives the result
+   and the reads of the emitted-program model, and the result of the reference semantics. *)
+Theorem C06_emitted_is_model : forall g p, prog_ok g p = true ->
+  forall U isprefix start fuel hops (rest : list byte) s off c, bytes_ok rest ->
+  walk_prog U p isprefix start fuel hops rest s off c = walk_opt U g isprefix start fuel hops rest s off c.
+Proof. exact walk_prog_opt. Qed.
+
+Theorem C06_emitted_is_ref : forall U g p isprefix start (rest : list byte),
+  prog_ok g p = true -> wf_graph g = true -> bytes_ok rest ->
+  fst (attempt_prog U p (PositiveMap.cardinal (g_states g)) isprefix start rest) = attempt_ref g isprefix start rest.
+Proof. exact attempt_prog_is_ref. Qed.
+
+(* two emitted programs (one per generator) accepted against the same graph agree on every input *)
+Theorem C06_emitted_programs_agree : forall U g p1 p2 isprefix start (rest : list byte),
+  prog_ok g p1 = true -> prog_ok g p2 = true -> wf_graph g = true -> bytes_ok rest ->
+  fst (attempt_prog U p1 (PositiveMap.cardinal (g_states g)) isprefix start rest)
+  = fst (attempt_prog U p2 (PositiveMap.cardinal (g_states g)) isprefix start rest).
+Proof.
+  intros U g p1 p2 isprefix start rest H1 H2 Hwf Hw.
+  rewrite (attempt_prog_is_ref U g p1 isprefix start rest H1 Hwf Hw).
+  symmetry. exact (attempt_prog_is_ref U g p2 isprefix start rest H2 Hwf Hw).
 Qed.
